@@ -54,7 +54,7 @@ func grammarOf(m *emitModel) (prefix, infix []gform, stmts []gform) {
 		var out []string
 		for _, t := range tr {
 			switch {
-			case t == "adv", t == "v", t == "B", t == "H", t == "init", t == "local+":
+			case t == "adv", t == "semi", t == "v", t == "B", t == "H", t == "init", t == "local+":
 			case strings.HasPrefix(t, "sub:E("):
 				out = append(out, "E")
 			default:
